@@ -35,6 +35,13 @@ def ofHexChars : List Char → Option Bytes
 def ofHex (s : String) : Option Bytes :=
   if s == "-" then some [] else ofHexChars s.toList
 
+/-- Number of (possibly overlapping) occurrences of `pat` in `s`. -/
+def countInfix (pat : Bytes) : Bytes → Nat
+  | [] => if pat.isEmpty then 1 else 0
+  | b :: rest => (if List.isPrefixOf pat (b :: rest) then 1 else 0) + countInfix pat rest
+
+def hasInfix (pat s : Bytes) : Bool := countInfix pat s > 0
+
 end Bytes
 
 /-- `strings.Join(lines, "\n")`. -/
